@@ -226,14 +226,14 @@ Print Assumptions C04_regex_first_way.
 (* the SYMBOLIC run (characters = sets of bytes, unconstrained tail) is sound for every concretisation:
    a plan that [chain_ok] accepts determines the concrete search on EVERY text of the plan *)
 Theorem C04_regex_plan_search : forall r p texts rest,
-  chain_ok true r p = true -> texts_ok p texts rest = true ->
+  chain_ok OAbs r p = true -> texts_ok p texts rest = true ->
   search r (concat texts ++ rest) =
     Match (0, mkC (N.of_nat (length (concat texts))) rest (final_caps p texts rest 0)).
 Proof. exact plan_search. Qed.
 Print Assumptions C04_regex_plan_search.
 
 Example C04_regex_plan_search_example :
-  chain_ok true (rx_re iso_rx) iso_plan = true /\
+  chain_ok OAbs (rx_re iso_rx) iso_plan = true /\
   texts_ok iso_plan (iso_texts 2024 2 29 23 59 59 32) (s2b "up") = true /\
   search (rx_re iso_rx) (concat (iso_texts 2024 2 29 23 59 59 32) ++ s2b "up") =
     Match (0, mkC 20 (s2b "up") (final_caps iso_plan (iso_texts 2024 2 29 23 59 59 32) (s2b "up") 0)).
